@@ -18,21 +18,37 @@ use crate::proto::*;
 pub enum RdEv {
     Data(usize),
     Intr,
-    Fail,
+    Fail(io::ErrorKind),
 }
 #[derive(Clone, Copy, Debug)]
 pub enum WrEv {
     Accept(usize),
     Intr,
     Zero,
-    Fail,
+    Fail(io::ErrorKind),
+}
+
+/// `F` = ErrorKind::Other; `F<letter>` picks another non-Interrupted kind.  The model treats them alike:
+/// every error other than Interrupted is a hard failure.
+fn fail_kind(s: &str) -> io::ErrorKind {
+    match s.as_bytes().get(1) {
+        None => io::ErrorKind::Other,
+        Some(b'T') => io::ErrorKind::TimedOut,
+        Some(b'W') => io::ErrorKind::WouldBlock,
+        Some(b'E') => io::ErrorKind::UnexpectedEof,
+        Some(b'B') => io::ErrorKind::BrokenPipe,
+        Some(b'Z') => io::ErrorKind::WriteZero,
+        Some(b'D') => io::ErrorKind::InvalidData,
+        Some(b'N') => io::ErrorKind::NotConnected,
+        _ => panic!("bad failure kind"),
+    }
 }
 
 pub fn rd_ev_of_str(s: &str) -> RdEv {
     match s.as_bytes()[0] {
         b'D' => RdEv::Data(s[1..].parse().unwrap()),
         b'I' => RdEv::Intr,
-        b'F' => RdEv::Fail,
+        b'F' => RdEv::Fail(fail_kind(s)),
         _ => panic!("bad rd_ev"),
     }
 }
@@ -41,7 +57,7 @@ pub fn wr_ev_of_str(s: &str) -> WrEv {
         b'A' => WrEv::Accept(s[1..].parse().unwrap()),
         b'I' => WrEv::Intr,
         b'Z' => WrEv::Zero,
-        b'F' => WrEv::Fail,
+        b'F' => WrEv::Fail(fail_kind(s)),
         _ => panic!("bad wr_ev"),
     }
 }
@@ -55,10 +71,12 @@ pub struct SchedReader {
     pub calls: usize,
     pub last_read_end: Option<Instant>,
     pub first_read_start: Option<Instant>,
+    /// real time the first read call takes (a sign that is slow to answer)
+    pub latency: Duration,
 }
 impl SchedReader {
     pub fn new(content: Vec<u8>, sched: Vec<RdEv>) -> Self {
-        SchedReader { content, pos: 0, sched: sched.into(), calls: 0, last_read_end: None, first_read_start: None }
+        SchedReader { content, pos: 0, sched: sched.into(), calls: 0, last_read_end: None, first_read_start: None, latency: Duration::ZERO }
     }
     pub fn remaining(&self) -> &[u8] {
         &self.content[self.pos..]
@@ -68,6 +86,9 @@ impl Read for SchedReader {
     fn read(&mut self, buf: &mut [u8]) -> io::Result<usize> {
         if self.first_read_start.is_none() {
             self.first_read_start = Some(Instant::now());
+            if !self.latency.is_zero() {
+                std::thread::sleep(self.latency);
+            }
         }
         self.calls += 1;
         let avail = self.content.len() - self.pos;
@@ -75,7 +96,7 @@ impl Read for SchedReader {
             None => Ok(buf.len().min(avail)),
             Some(RdEv::Data(n)) => Ok(buf.len().min(n + 1).min(avail)),
             Some(RdEv::Intr) => Err(io::Error::new(io::ErrorKind::Interrupted, "scheduled interrupt")),
-            Some(RdEv::Fail) => Err(io::Error::new(io::ErrorKind::Other, "scheduled failure")),
+            Some(RdEv::Fail(k)) => Err(io::Error::new(k, "scheduled failure")),
         };
         if let Ok(k) = r {
             buf[..k].copy_from_slice(&self.content[self.pos..self.pos + k]);
@@ -91,28 +112,38 @@ pub struct SchedWriter {
     pub sched: VecDeque<WrEv>,
     pub first_write_start: Option<Instant>,
     pub last_write_end: Option<Instant>,
+    /// start and end of every write call, in order
+    pub write_spans: Vec<(Instant, Instant)>,
+    /// real time the first write call of each frame takes (a port that blocks while transmitting)
+    pub cost: Duration,
 }
 impl SchedWriter {
     pub fn new(sched: Vec<WrEv>) -> Self {
-        SchedWriter { out: vec![], sched: sched.into(), first_write_start: None, last_write_end: None }
+        SchedWriter { out: vec![], sched: sched.into(), first_write_start: None, last_write_end: None, write_spans: vec![], cost: Duration::ZERO }
     }
 }
 impl Write for SchedWriter {
     fn write(&mut self, buf: &[u8]) -> io::Result<usize> {
+        let t0 = Instant::now();
         if self.first_write_start.is_none() {
-            self.first_write_start = Some(Instant::now());
+            self.first_write_start = Some(t0);
+        }
+        if !self.cost.is_zero() && buf.first() == Some(&b':') {
+            std::thread::sleep(self.cost);
         }
         let r = match self.sched.pop_front() {
             None => Ok(buf.len()),
             Some(WrEv::Accept(n)) => Ok(buf.len().min(n + 1)),
             Some(WrEv::Intr) => Err(io::Error::new(io::ErrorKind::Interrupted, "scheduled interrupt")),
             Some(WrEv::Zero) => Ok(0),
-            Some(WrEv::Fail) => Err(io::Error::new(io::ErrorKind::Other, "scheduled failure")),
+            Some(WrEv::Fail(k)) => Err(io::Error::new(k, "scheduled failure")),
         };
         if let Ok(k) = r {
             self.out.extend_from_slice(&buf[..k]);
         }
-        self.last_write_end = Some(Instant::now());
+        let t1 = Instant::now();
+        self.last_write_end = Some(t1);
+        self.write_spans.push((t0, t1));
         r
     }
     fn flush(&mut self) -> io::Result<()> {
@@ -132,10 +163,44 @@ pub enum FailAt {
     Timeout,
 }
 
+/// Which serial_core error a refusing device call returns.  The description is unique so that "returns THAT
+/// error" can be checked.
+#[derive(Clone, Copy, Debug, PartialEq, Eq)]
+pub enum FailKind {
+    NoDevice,
+    InvalidInput,
+    Io(io::ErrorKind),
+}
+pub const INJECTED: &str = "injected-by-fdx-7c1e";
+impl FailKind {
+    pub fn of_str(s: &str) -> FailKind {
+        match s {
+            "" | "N" => FailKind::NoDevice,
+            "V" => FailKind::InvalidInput,
+            "I" => FailKind::Io(io::ErrorKind::Interrupted),
+            "W" => FailKind::Io(io::ErrorKind::WouldBlock),
+            "T" => FailKind::Io(io::ErrorKind::TimedOut),
+            "O" => FailKind::Io(io::ErrorKind::Other),
+            "P" => FailKind::Io(io::ErrorKind::PermissionDenied),
+            _ => panic!("bad failure kind"),
+        }
+    }
+    pub fn kind(self) -> serial_core::ErrorKind {
+        match self {
+            FailKind::NoDevice => serial_core::ErrorKind::NoDevice,
+            FailKind::InvalidInput => serial_core::ErrorKind::InvalidInput,
+            FailKind::Io(k) => serial_core::ErrorKind::Io(k),
+        }
+    }
+    pub fn error(self) -> serial_core::Error {
+        serial_core::Error::new(self.kind(), INJECTED)
+    }
+}
+
 #[derive(Clone, Copy, Debug)]
 pub struct FSettings {
     pub inner: PortSettings,
-    pub fail_baud: bool,
+    pub fail_baud: Option<FailKind>,
 }
 impl SerialPortSettings for FSettings {
     fn baud_rate(&self) -> Option<BaudRate> {
@@ -154,8 +219,8 @@ impl SerialPortSettings for FSettings {
         self.inner.flow_control()
     }
     fn set_baud_rate(&mut self, baud_rate: BaudRate) -> serial_core::Result<()> {
-        if self.fail_baud {
-            return Err(serial_core::Error::new(serial_core::ErrorKind::InvalidInput, "baud refused"));
+        if let Some(k) = self.fail_baud {
+            return Err(k.error());
         }
         self.inner.set_baud_rate(baud_rate)
     }
@@ -178,6 +243,8 @@ pub struct TestPort {
     pub wr: SchedWriter,
     pub settings: PortSettings,
     pub fail: FailAt,
+    /// the error the refusing call returns (every call from then on refuses the same way)
+    pub fail_kind: FailKind,
     pub timeout: Option<Duration>,
     pub config_calls: Vec<&'static str>,
 }
@@ -194,6 +261,7 @@ impl TestPort {
                 flow_control: FlowControl::FlowSoftware,
             },
             fail: FailAt::None,
+            fail_kind: FailKind::NoDevice,
             timeout: None,
             config_calls: vec![],
         }
@@ -216,14 +284,14 @@ impl SerialDevice for TestPort {
     type Settings = FSettings;
     fn read_settings(&self) -> serial_core::Result<FSettings> {
         if self.fail == FailAt::Read {
-            return Err(serial_core::Error::new(serial_core::ErrorKind::NoDevice, "read_settings refused"));
+            return Err(self.fail_kind.error());
         }
-        Ok(FSettings { inner: self.settings, fail_baud: self.fail == FailAt::Baud })
+        Ok(FSettings { inner: self.settings, fail_baud: if self.fail == FailAt::Baud { Some(self.fail_kind) } else { None } })
     }
     fn write_settings(&mut self, settings: &FSettings) -> serial_core::Result<()> {
         self.config_calls.push("write_settings");
         if self.fail == FailAt::Write {
-            return Err(serial_core::Error::new(serial_core::ErrorKind::NoDevice, "write_settings refused"));
+            return Err(self.fail_kind.error());
         }
         self.settings = settings.inner;
         Ok(())
@@ -234,7 +302,7 @@ impl SerialDevice for TestPort {
     fn set_timeout(&mut self, t: Duration) -> serial_core::Result<()> {
         self.config_calls.push("set_timeout");
         if self.fail == FailAt::Timeout {
-            return Err(serial_core::Error::new(serial_core::ErrorKind::InvalidInput, "set_timeout refused"));
+            return Err(self.fail_kind.error());
         }
         self.timeout = Some(t);
         Ok(())
@@ -482,16 +550,24 @@ pub fn eval_io_case(t: &[&str]) -> Option<String> {
             Some(format!("{} | {}", s, hex_of_bytes(&w.out)))
         }
         "SB" | "TM" => {
-            let (rs, ws) = split_at("/", &t[3..]);
             let timing = t[0] == "TM";
-            let trials = if timing { 5 } else { 1 };
+            // TM msg tape [slow]: with `slow` the port takes real time (20 ms per frame written, 40 ms until the
+            // reply starts to arrive), so that pacing measured from before the I/O instead of after it is exposed.
+            let slow = timing && t.get(3) == Some(&"slow");
+            let empty: [&str; 0] = [];
+            let (rs, ws): (&[&str], &[&str]) = if timing { (&empty[..], &empty[..]) } else { split_at("/", &t[3..]) };
+            let trials = if !timing { 1 } else if slow { 3 } else { 15 };
             let mut min_send = Duration::from_secs(3600);
             let mut min_recv = Duration::from_secs(3600);
             let mut min_pre = Duration::from_secs(3600);
             let mut result = String::new();
             for _ in 0..trials {
-                let rd = SchedReader::new(bytes_of_hex(t[2]), rs.iter().map(|s| rd_ev_of_str(s)).collect());
-                let wr = SchedWriter::new(ws.iter().map(|s| wr_ev_of_str(s)).collect());
+                let mut rd = SchedReader::new(bytes_of_hex(t[2]), rs.iter().map(|s| rd_ev_of_str(s)).collect());
+                let mut wr = SchedWriter::new(ws.iter().map(|s| wr_ev_of_str(s)).collect());
+                if slow {
+                    wr.cost = Duration::from_millis(20);
+                    rd.latency = Duration::from_millis(40);
+                }
                 let port = TestPort::new(rd, wr);
                 let mut bus = match SerialSignBus::try_new(port) {
                     Ok(b) => b,
@@ -501,7 +577,6 @@ pub fn eval_io_case(t: &[&str]) -> Option<String> {
                 let start = Instant::now();
                 let r = guarded(|| bus.process_message(m));
                 let end = Instant::now();
-                let port = bus.port();
                 let res = match &r {
                     None => "PANIC".to_string(),
                     Some(Ok(reply)) => format!("OK {}", str_omsg(reply)),
@@ -510,33 +585,43 @@ pub fn eval_io_case(t: &[&str]) -> Option<String> {
                         s
                     }
                 };
-                result = format!("{} | {} | {}", res, hex_of_bytes(&port.wr.out), hex_of_bytes(port.rd.remaining()));
+                {
+                    let port = bus.port();
+                    result = format!("{} | {} | {}", res, hex_of_bytes(&port.wr.out), hex_of_bytes(port.rd.remaining()));
+                }
                 if !timing {
                     break;
                 }
-                if let Some(we) = port.wr.last_write_end {
-                    let next = port.rd.first_read_start.unwrap_or(end);
-                    min_send = min_send.min(next.duration_since(we));
+                // "does not write the next message until at least 30 ms have passed": follow with a message that is
+                // neither paced nor answered and measure from the end of the first frame's write to the start of the next.
+                let _ = guarded(|| bus.process_message(msg_of_str("DC.0")));
+                let port = bus.port();
+                let first_end = port.wr.write_spans.iter().filter(|(_, e)| *e <= end).map(|(_, e)| *e).last();
+                let next_start = port.wr.write_spans.iter().filter(|(s, _)| *s >= end).map(|(s, _)| *s).next();
+                if let (Some(we), Some(ns)) = (first_end, next_start) {
+                    // idle time after the write that is not spent reading the reply or in the post-receive delay:
+                    // until the read starts (or the call returns), plus from the return to the next frame's write
+                    let until = port.rd.first_read_start.unwrap_or(end);
+                    min_send = min_send.min(until.saturating_duration_since(we) + ns.saturating_duration_since(end));
                 }
                 if let Some(ws) = port.wr.first_write_start {
                     min_pre = min_pre.min(ws.duration_since(start));
                 }
                 if let Some(re) = port.rd.last_read_end {
-                    min_recv = min_recv.min(end.duration_since(re));
+                    min_recv = min_recv.min(end.saturating_duration_since(re));
                 } else {
                     min_recv = Duration::from_secs(0);
                 }
                 // an unpaced verdict cannot be overturned by more trials
-                if min_send < Duration::from_millis(30) && min_recv < Duration::from_millis(100) {
+                if min_send < Duration::from_millis(30) && min_recv < Duration::from_millis(100) && min_pre < Duration::from_millis(30) {
                     break;
                 }
             }
             if timing {
                 let send = (min_send >= Duration::from_millis(30)) as u8;
                 let recv = (min_recv >= Duration::from_millis(100)) as u8;
-                // a delay of either pacing amount anywhere else
-                let other = min_pre >= Duration::from_millis(30)
-                    || (send == 1 && min_send >= Duration::from_millis(100) && recv == 0 && false);
+                // a delay of either pacing amount anywhere else (before the frame is written)
+                let other = min_pre >= Duration::from_millis(30);
                 Some(format!("send={} recv={}{}", send, recv, if other { " other" } else { "" }))
             } else {
                 Some(result)
@@ -661,7 +746,9 @@ pub fn eval_io_case(t: &[&str]) -> Option<String> {
                 "S" => FlowControl::FlowSoftware,
                 _ => FlowControl::FlowHardware,
             };
-            let fail = match t[6] {
+            // fail token: <point>[:<kind letter>]
+            let (fpoint, fkind) = t[6].split_once(':').unwrap_or((t[6], ""));
+            let fail = match fpoint {
                 "none" => FailAt::None,
                 "read" => FailAt::Read,
                 "baud" => FailAt::Baud,
@@ -671,19 +758,29 @@ pub fn eval_io_case(t: &[&str]) -> Option<String> {
             let mut port = TestPort::new(SchedReader::new(vec![], vec![]), SchedWriter::new(vec![]));
             port.settings = PortSettings { baud_rate: baud, char_size: cs, parity: par, stop_bits: stop, flow_control: flow };
             port.fail = fail;
+            port.fail_kind = FailKind::of_str(fkind);
+            let want_kind = port.fail_kind.kind();
             let ctor: Vec<&str> = t[7].split('.').collect();
             let show = |p: &TestPort| {
                 format!(
                     "OK {} {}",
                     str_settings(&p.settings),
-                    p.timeout.map(|d| d.as_millis().to_string()).unwrap_or_else(|| "-".to_string())
+                    p.timeout.map(|d| d.as_nanos().to_string()).unwrap_or_else(|| "-".to_string())
                 )
             };
-            let which = |_e: &serial_core::Error| format!("ER {}", t[6]);
+            // "returns that error": the error handed back must be the one the device call refused with
+            let which = |e: &serial_core::Error| {
+                use std::error::Error as _;
+                #[allow(deprecated)]
+                let same = e.kind() == want_kind && e.description() == INJECTED;
+                if same { format!("ER {}", fpoint) } else { format!("ER {} but-another-error({:?})", fpoint, e.kind()) }
+            };
             Some(match ctor[0] {
                 "CFG" => {
-                    let ms: u64 = ctor[1].parse().unwrap();
-                    match guarded(|| flipdot_serial::configure_port(&mut port, Duration::from_millis(ms))) {
+                    // CFG.<secs>.<nanos>
+                    let secs: u64 = ctor[1].parse().unwrap();
+                    let nanos: u32 = ctor[2].parse().unwrap();
+                    match guarded(|| flipdot_serial::configure_port(&mut port, Duration::new(secs, nanos))) {
                         None => "PANIC".to_string(),
                         Some(Ok(())) => show(&port),
                         Some(Err(e)) => which(&e),
@@ -722,7 +819,7 @@ impl std::fmt::Debug for TestPort {
             hex_of_bytes(&self.wr.out),
             hex_of_bytes(self.rd.remaining()),
             str_settings(&self.settings),
-            self.timeout.map(|d| d.as_millis().to_string()).unwrap_or_else(|| "-".to_string())
+            self.timeout.map(|d| d.as_nanos().to_string()).unwrap_or_else(|| "-".to_string())
         )
     }
 }
